@@ -13,6 +13,7 @@ import (
 	"fmt"
 	"os"
 	"path/filepath"
+	"regexp"
 	"sort"
 	"strings"
 	"testing"
@@ -52,7 +53,8 @@ type Atom struct {
 	K       int    `json:"k"`
 	Name    string `json:"name,omitempty"`
 	Variant int    `json:"variant,omitempty"`
-	Wrap    string `json:"wrap,omitempty"` // "", "try", "if", "for": the K lines sit inside such a block
+	Wrap    string `json:"wrap,omitempty"` // "", "try", "if", "for": the K lines sit inside such a block; widening w4: "while", "catch", "finally", "else", "sync", "switch", "lambda"
+	Split   bool   `json:"split,omitempty"` // widening w4: the argument list continues on the next line (the call starts on the first)
 }
 
 // Method kinds: "test" (annotated), "helper" (un-annotated, called by tests of the class),
@@ -66,6 +68,10 @@ type Method struct {
 	Mods      string `json:"mods,omitempty"`      // "public", "", "protected", "private"
 	Throws    bool   `json:"throws,omitempty"`
 	Atoms     []Atom `json:"atoms"`
+	// widening w4: one more annotation that is neither @Test nor @Ignore (index into
+	// extraAnnotations, 0 = none), written before annotation number ExtraPos of the method
+	Extra    int `json:"extra,omitempty"`
+	ExtraPos int `json:"extraPos,omitempty"`
 }
 
 // File roles: "test" or "prod". Where a file lands follows from the layout of the case.
@@ -81,6 +87,10 @@ type File struct {
 	Constructor bool     `json:"constructor,omitempty"` // a constructor that prints and sleeps
 	BlankLines  int      `json:"blankLines,omitempty"`
 	Methods     []Method `json:"methods"`
+	// widening w4
+	ClassAnnot int  `json:"classAnnot,omitempty"` // 0 none; 1 @RunWith(..); 2 @Ignore on the class; 3 @Category(..) @Ignore("later") on the class
+	Extends    bool `json:"extends,omitempty"`    // extends BaseTestCase
+	CRLF       bool `json:"crlf,omitempty"`
 }
 
 type Case struct {
@@ -88,6 +98,10 @@ type Case struct {
 	Module string `json:"module,omitempty"` // maven: optional module directory
 	Files  []File `json:"files"`
 	RelDir bool   `json:"relDir,omitempty"` // CLI only: -p relative to the working directory
+	// widening w4
+	DirStyle int  `json:"dirStyle,omitempty"` // CLI only: 0 as RelDir says; 1 "./proj"; 2 "proj/"; 3 run inside proj without -p (the default ".")
+	Sort     bool `json:"sort,omitempty"`     // CLI only: -s (the report grouped by type)
+	Repeat   bool `json:"repeat,omitempty"`   // API only: the whole pipeline runs a second time in the same process without any reset
 }
 
 // ---------------------------------------------------------------------------------------
@@ -121,10 +135,11 @@ type fileTruth struct {
 }
 
 type jw struct {
-	sb   strings.Builder
-	next int
-	unit string
-	v    int
+	sb    strings.Builder
+	next  int
+	unit  string
+	v     int
+	class string // name of the class being printed
 }
 
 func (w *jw) ln(depth int, s string) int {
@@ -146,7 +161,17 @@ var assertionNames = map[string]bool{
 	// one name for every other prefix of the tool's assertion list (constants.ASSERTION_LIST:
 	// should, check, maynotbe, is, spec)
 	"shouldBeOpen": true, "checkState": true, "mayNotBeAccessedByAnyLayer": true, "isConsistent": true, "specifiedBy": true,
+	// widening w4
+	"assertThrows": true, "assertNotEquals": true, "assertIterableEquals": true, "verifyNoMoreInteractions": true, "assertNotSame": true,
 }
+
+// annotations that are neither @Test nor @Ignore. The first four go with anything; the others
+// look like the two (prefix, suffix, other case) and are put on un-annotated methods only:
+// the statement counts a method as a test by @Test/@Ignore alone.
+var extraAnnotations = []string{"", "@Deprecated", "@SuppressWarnings(\"unchecked\")", "@Category(Slow.class)", "@DisplayName(\"ignore this test\")",
+	"@ParameterizedTest", "@TestFactory", "@RepeatedTest(3)", "@IgnoreIf(Nightly.class)", "@Ignored", "@TestOnly", "@VisibleForTesting", "@Testable", "@NotIgnore"}
+
+const plainExtraFrom = 5 // extraAnnotations[plainExtraFrom:] only on methods without @Test/@Ignore
 
 // qualifier of an assertion under import style 2
 func owner(name string) string {
@@ -172,12 +197,50 @@ func (w *jw) atom(depth int, a Atom, style int, t *methodTruth) {
 		k := w.fresh()
 		w.ln(depth, fmt.Sprintf("for (int i%d = 0; i%d < 3; i%d++) {", k, k, k))
 		d++
+	case "while":
+		w.ln(depth, fmt.Sprintf("while (limit > %d) {", w.fresh()))
+		d++
+	case "catch":
+		w.ln(depth, "try {")
+		w.ln(depth+1, "limit++;")
+		w.ln(depth, fmt.Sprintf("} catch (RuntimeException e%d) {", w.fresh()))
+		d++
+	case "finally":
+		w.ln(depth, "try {")
+		w.ln(depth+1, "limit++;")
+		w.ln(depth, "} finally {")
+		d++
+	case "else":
+		w.ln(depth, fmt.Sprintf("if (limit > %d) {", w.fresh()))
+		w.ln(depth+1, "limit++;")
+		w.ln(depth, "} else {")
+		d++
+	case "sync":
+		w.ln(depth, "synchronized (this) {")
+		d++
+	case "switch":
+		w.ln(depth, "switch (limit) {")
+		w.ln(depth, "case 1:")
+		d++
+	case "lambda":
+		w.ln(depth, fmt.Sprintf("Runnable task%d = () -> {", w.fresh()))
+		d++
 	}
 	q := func(name string) string {
 		if style == 2 && assertionNames[name] {
 			return owner(name) + name
 		}
 		return name
+	}
+	// emit writes one call statement; with Split the argument list continues on a second
+	// line. The call starts on the returned line either way.
+	emit := func(text string) int {
+		if i := strings.Index(text, "("); a.Split && i > 0 {
+			n := w.ln(d, text[:i+1])
+			w.ln(d+2, text[i+1:])
+			return n
+		}
+		return w.ln(d, text)
 	}
 	for i := 0; i < a.K; i++ {
 		k := w.fresh()
@@ -194,14 +257,14 @@ func (w *jw) atom(depth int, a Atom, style int, t *methodTruth) {
 			default:
 				text = "System.out.println();"
 			}
-			n := w.ln(d, text)
+			n := emit(text)
 			t.Calls = append(t.Calls, callRec{Name: "System.out.print*", Line: n, Print: true})
 		case "sleep":
-			n := w.ln(d, fmt.Sprintf("Thread.sleep(%d);", 10*k))
+			n := emit(fmt.Sprintf("Thread.sleep(%d);", 10*k))
 			t.Calls = append(t.Calls, callRec{Name: "Thread.sleep", Line: n, Sleep: true})
 		case "same2":
 			arg := []string{"expected", fmt.Sprint(k), "\"text\"", "limit", "names[0]", "limit + 1", "service.total()"}[a.Variant%7]
-			n := w.ln(d, fmt.Sprintf("%s(%s, %s);", callee(a.Name, q), arg, arg))
+			n := emit(fmt.Sprintf("%s(%s, %s);", callee(a.Name, q), arg, arg))
 			t.Calls = append(t.Calls, callRec{Name: a.Name, Line: n, Assertion: assertionNames[a.Name], Same2: true})
 			if a.Variant%7 == 6 {
 				t.Calls = append(t.Calls, callRec{Name: "total", Line: n}, callRec{Name: "total", Line: n})
@@ -210,7 +273,7 @@ func (w *jw) atom(depth int, a Atom, style int, t *methodTruth) {
 			pair := [][2]string{{"expected", "actual"}, {fmt.Sprint(k), fmt.Sprint(k + 1)}, {"\"text\"", "\"text \""},
 				{"limit", "limit1"}, {"1", "1L"}, {"expected", "Expected"}, {fmt.Sprint(k), "service.total()"},
 				{"service.total()", "service.total(1)"}}[a.Variant%8]
-			n := w.ln(d, fmt.Sprintf("%s(%s, %s);", callee(a.Name, q), pair[0], pair[1]))
+			n := emit(fmt.Sprintf("%s(%s, %s);", callee(a.Name, q), pair[0], pair[1]))
 			t.Calls = append(t.Calls, callRec{Name: a.Name, Line: n, Assertion: assertionNames[a.Name]})
 			for _, arg := range pair {
 				if strings.HasPrefix(arg, "service.total(") {
@@ -227,20 +290,28 @@ func (w *jw) atom(depth int, a Atom, style int, t *methodTruth) {
 				n := w.ln(d, fmt.Sprintf("%s(listener).run();", q("verify")))
 				t.Calls = append(t.Calls, callRec{Name: "verify", Line: n, Assertion: true},
 					callRec{Name: "run", Line: n})
+			case "assertThrows":
+				// a two-argument assertion (different arguments) around a lambda that makes a call
+				n := w.ln(d, fmt.Sprintf("%s(IllegalStateException.class, () -> service.load(%d));", q("assertThrows"), k))
+				t.Calls = append(t.Calls, callRec{Name: "assertThrows", Line: n, Assertion: true},
+					callRec{Name: "load", Line: n})
 			default:
-				n := w.ln(d, fmt.Sprintf("%s(actual%d);", q(a.Name), k))
+				n := emit(fmt.Sprintf("%s(actual%d);", q(a.Name), k))
 				t.Calls = append(t.Calls, callRec{Name: a.Name, Line: n, Assertion: true})
 			}
 		case "helper":
 			text := a.Name + "();"
-			if a.Variant%2 == 1 {
+			switch a.Variant % 3 {
+			case 1:
 				text = "this." + text
+			case 2:
+				text = w.class + "." + text // a static helper named through its own class
 			}
 			n := w.ln(d, text)
 			t.Calls = append(t.Calls, callRec{Name: a.Name, Line: n, Helper: a.Name})
 		case "neutral":
 			var text, name string
-			switch a.Variant % 8 {
+			switch a.Variant % 14 {
 			case 0:
 				text, name = fmt.Sprintf("service.load(%d);", k), "load"
 			case 1:
@@ -255,20 +326,35 @@ func (w *jw) atom(depth int, a Atom, style int, t *methodTruth) {
 				text, name = fmt.Sprintf("logger.print(\"value %d\");", k), "print"
 			case 6:
 				text, name = fmt.Sprintf("actual = compute(%d);", k), "compute"
-			default:
+			case 7:
 				text, name = "Thread.currentThread();", "currentThread"
+			// widening w4: more look-alikes
+			case 8:
+				text, name = fmt.Sprintf("service.dispatch(%d);", k), "dispatch" // "is" inside the name
+			case 9:
+				text, name = fmt.Sprintf("service.inspect(%d);", k), "inspect" // "spec" inside the name
+			case 10:
+				text, name = fmt.Sprintf("WorkerThread.sleep(%d);", k), "sleep" // not java.lang.Thread
+			case 11:
+				text, name = fmt.Sprintf("System.out.format(\"%%d\", %d);", k), "format" // no print/println/printf
+			case 12:
+				text, name = fmt.Sprintf("repository.store(%d, key, key);", k), "store" // three arguments
+			default:
+				text, name = "service.prepareFixture();", "prepareFixture" // named like a helper, on another object
 			}
-			n := w.ln(d, text)
+			n := emit(text)
 			t.Calls = append(t.Calls, callRec{Name: name, Line: n})
 		case "create":
 			n := w.ln(d, fmt.Sprintf("Order order%d = new Order();", k))
 			t.Calls = append(t.Calls, callRec{Name: "new Order", Line: n, Creation: true})
 		case "fill":
-			switch k % 3 {
+			switch k % 4 {
 			case 0:
 				w.ln(d, fmt.Sprintf("int local%d = %d;", k, k))
 			case 1:
 				w.ln(d, fmt.Sprintf("// System.out.println(\"%d\"); Thread.sleep(1); assertEquals(1, 1);", k))
+			case 2:
+				w.ln(d, fmt.Sprintf("String note%d = \"Thread.sleep(1); System.out.println(1); assertEquals(a, a)\";", k))
 			default:
 				w.ln(d, fmt.Sprintf("limit = limit + %d;", k))
 			}
@@ -281,8 +367,15 @@ func (w *jw) atom(depth int, a Atom, style int, t *methodTruth) {
 		w.ln(depth, fmt.Sprintf("} catch (Exception e%d) {", w.fresh()))
 		w.ln(depth+1, "limit = 0;")
 		w.ln(depth, "}")
-	case "if", "for":
+	case "if", "for", "while", "catch", "finally", "else", "sync":
 		w.ln(depth, "}")
+	case "switch":
+		w.ln(depth+1, "break;")
+		w.ln(depth, "default:")
+		w.ln(depth+1, "break;")
+		w.ln(depth, "}")
+	case "lambda":
+		w.ln(depth, "};")
 	}
 }
 
@@ -311,23 +404,31 @@ func annotationTexts(m Method) []string {
 	if m.AnnotArgs&2 != 0 {
 		ignore = "@Ignore(\"not now\")"
 	}
+	var out []string
 	switch m.Annot {
 	case "T":
-		return []string{test}
+		out = []string{test}
 	case "I":
-		return []string{ignore}
+		out = []string{ignore}
 	case "TI":
-		return []string{test, ignore}
+		out = []string{test, ignore}
 	case "IT":
-		return []string{ignore, test}
+		out = []string{ignore, test}
 	case "B":
-		return []string{"@Before"}
+		out = []string{"@Before"}
 	case "A":
-		return []string{"@After"}
+		out = []string{"@After"}
 	case "BC":
-		return []string{"@BeforeClass"}
+		out = []string{"@BeforeClass"}
 	}
-	return nil
+	if m.Extra > 0 && m.Extra < len(extraAnnotations) {
+		pos := m.ExtraPos
+		if pos < 0 || pos > len(out) {
+			pos = len(out)
+		}
+		out = append(out[:pos], append([]string{extraAnnotations[m.Extra]}, out[pos:]...)...)
+	}
+	return out
 }
 
 func (w *jw) method(m Method, style int) methodTruth {
@@ -381,7 +482,7 @@ func relPath(c Case, f File) string {
 }
 
 func render(c Case, f File) fileTruth {
-	w := &jw{next: 1, unit: indentUnits[f.Indent%len(indentUnits)]}
+	w := &jw{next: 1, unit: indentUnits[f.Indent%len(indentUnits)], class: f.Name}
 	t := fileTruth{Rel: relPath(c, f), Role: f.Role, Class: f.Name}
 	for i := 0; i < f.Header; i++ {
 		w.ln(0, fmt.Sprintf("// header %d: @Test @Ignore System.out.println(\"x\");", i))
@@ -432,7 +533,20 @@ func render(c Case, f File) fileTruth {
 	}
 	w.ln(0, "import java.util.concurrent.TimeUnit;")
 	w.ln(0, "")
-	w.ln(0, "public class "+f.Name+" {")
+	switch f.ClassAnnot {
+	case 1:
+		w.ln(0, "@RunWith(SpringRunner.class)")
+	case 2:
+		// an annotation of the class is not an annotation of its methods
+		w.ln(0, "@Ignore")
+	case 3:
+		w.ln(0, "@Category(Slow.class) @Ignore(\"later\")")
+	}
+	if f.Extends {
+		w.ln(0, "public class "+f.Name+" extends BaseTestCase {")
+	} else {
+		w.ln(0, "public class "+f.Name+" {")
+	}
 	w.ln(1, "private int limit = 3;")
 	w.ln(1, "private String expected, actual, key;")
 	if f.Field {
@@ -455,6 +569,9 @@ func render(c Case, f File) fileTruth {
 	}
 	w.ln(0, "}")
 	t.Text = w.sb.String()
+	if f.CRLF {
+		t.Text = strings.ReplaceAll(t.Text, "\n", "\r\n")
+	}
 	return t
 }
 
@@ -732,6 +849,19 @@ func judge(root string, truths []fileTruth, got []finding) string {
 	return ""
 }
 
+// pipeline is the sequence of cmd/tbs.go; it also returns the class nodes, so that the last
+// step can be repeated on the same data.
+func pipeline(src string) (result []tbs.TestBadSmell, classNodes []core_domain.CodeDataStruct, identifiersMap map[string]core_domain.CodeDataStruct) {
+	files := cocafile.GetJavaTestFiles(src)
+	identifierApp := javaapp.NewJavaIdentifierApp()
+	identifiers := identifierApp.AnalysisFiles(files)
+	identifiersMap = core_domain.BuildIdentifierMap(identifiers)
+	app := javaapp.NewJavaFullApp()
+	classNodes = app.AnalysisFiles(identifiers, files)
+	result = tbs.NewTbsApp().AnalysisPath(classNodes, identifiersMap)
+	return
+}
+
 func checkAPI(c Case) pbt.Verdict {
 	truths := renderAll(c)
 	root := cli.Scratch("c11-")
@@ -739,28 +869,41 @@ func checkAPI(c Case) pbt.Verdict {
 	src := filepath.Join(root, "proj")
 	writeTree(src, truths)
 	resetState()
-	var result []tbs.TestBadSmell
+	var result, again, second []tbs.TestBadSmell
 	if p := pbt.Call(func() {
 		quiet(func() {
-			// the pipeline of cmd/tbs.go
-			files := cocafile.GetJavaTestFiles(src)
-			identifierApp := javaapp.NewJavaIdentifierApp()
-			identifiers := identifierApp.AnalysisFiles(files)
-			identifiersMap := core_domain.BuildIdentifierMap(identifiers)
-			app := javaapp.NewJavaFullApp()
-			classNodes := app.AnalysisFiles(identifiers, files)
-			result = tbs.NewTbsApp().AnalysisPath(classNodes, identifiersMap)
+			var classNodes []core_domain.CodeDataStruct
+			var identifiersMap map[string]core_domain.CodeDataStruct
+			result, classNodes, identifiersMap = pipeline(src)
+			// the same call once more on the same data
+			again = tbs.NewTbsApp().AnalysisPath(classNodes, identifiersMap)
+			if c.Repeat {
+				// and the whole pipeline a second time in this process, without any reset
+				second, _, _ = pipeline(src)
+			}
 		})
 	}); p != "" {
 		return pbt.Fail("the test-smell pipeline (GetJavaTestFiles -> identifiers -> AnalysisFiles -> TbsApp.AnalysisPath) panicked: %s\n%s",
 			stable(strings.ReplaceAll(p, root, "<TMP>")), texts(truths))
 	}
-	var got []finding
-	for _, r := range result {
-		got = append(got, reported(src, truths, r.Type, r.FileName, r.Line))
+	runs := []struct {
+		what   string
+		result []tbs.TestBadSmell
+	}{{"", result}, {"TbsApp.AnalysisPath called a second time on the same class nodes: ", again}}
+	if c.Repeat {
+		runs = append(runs, struct {
+			what   string
+			result []tbs.TestBadSmell
+		}{"the pipeline run a second time in the same process: ", second})
 	}
-	if msg := judge(src, truths, got); msg != "" {
-		return pbt.Fail("%s\n%s", strings.ReplaceAll(msg, src, "<DIR>"), texts(truths))
+	for _, run := range runs {
+		var got []finding
+		for _, r := range run.result {
+			got = append(got, reported(src, truths, r.Type, r.FileName, r.Line))
+		}
+		if msg := judge(src, truths, got); msg != "" {
+			return pbt.Fail("%s%s\n%s", run.what, strings.ReplaceAll(msg, src, "<DIR>"), texts(truths))
+		}
 	}
 	return classify(c, truths, src, "api")
 }
@@ -793,20 +936,62 @@ func tail(s string, n int) string {
 	return s
 }
 
+var numsLine = regexp.MustCompile(`Test Bad Smell nums:\s*(\d+)`)
+
+// tableRows reads the rows `| Type | FileName | Line |` of the table `coca tbs` prints.
+func tableRows(stdout string) (rows []string, header bool) {
+	for _, line := range strings.Split(stdout, "\n") {
+		line = strings.TrimSpace(line)
+		if !strings.HasPrefix(line, "|") || strings.HasPrefix(line, "|-") {
+			continue
+		}
+		cells := strings.Split(strings.Trim(line, "|"), "|")
+		if len(cells) != 3 {
+			continue
+		}
+		for i := range cells {
+			cells[i] = strings.TrimSpace(cells[i])
+		}
+		if strings.EqualFold(cells[0], "type") && strings.EqualFold(cells[1], "filename") {
+			header = true
+			continue
+		}
+		rows = append(rows, cells[0]+" "+cells[1]+":"+cells[2])
+	}
+	sort.Strings(rows)
+	return rows, header
+}
+
 func checkCLI(c Case) pbt.Verdict {
 	truths := renderAll(c)
 	root := cli.Scratch("c11-")
 	defer os.RemoveAll(root)
 	src := filepath.Join(root, "proj")
 	writeTree(src, truths)
-	dirArg := src
+	// how the directory is named on the command line; the report names files below it
+	cwd, dirArg, nameRoot := root, src, src
 	if c.RelDir {
-		dirArg = "proj"
+		dirArg, nameRoot = "proj", "proj"
+	}
+	switch c.DirStyle {
+	case 1:
+		dirArg, nameRoot = "./proj", "proj"
+	case 2:
+		dirArg, nameRoot = "proj/", "proj"
+	case 3:
+		cwd, dirArg, nameRoot = src, "", "."
+	}
+	args := []string{"tbs"}
+	if dirArg != "" {
+		args = append(args, "-p", dirArg)
+	}
+	if c.Sort {
+		args = append(args, "-s")
 	}
 	fail := func(msg string) pbt.Verdict {
-		return pbt.Fail("coca tbs -p %s: %s\n%s", strings.ReplaceAll(dirArg, root, "<CWD>"), strings.ReplaceAll(msg, root, "<CWD>"), texts(truths))
+		return pbt.Fail("coca %s (dirStyle %d): %s\n%s", strings.ReplaceAll(strings.Join(args, " "), root, "<CWD>"), c.DirStyle, strings.ReplaceAll(msg, root, "<CWD>"), texts(truths))
 	}
-	res, err := cli.Run("coca", root, nil, "tbs", "-p", dirArg)
+	res, err := cli.Run("coca", cwd, nil, args...)
 	if err != nil {
 		panic("HARNESS: cannot run coca: " + err.Error())
 	}
@@ -816,22 +1001,57 @@ func checkCLI(c Case) pbt.Verdict {
 	if res.ExitCode != 0 {
 		return fail(fmt.Sprintf("exit status %d\n%s", res.ExitCode, tail(res.Stderr, 1500)))
 	}
-	data, err := os.ReadFile(filepath.Join(root, "coca_reporter", "tbs.json"))
+	data, err := os.ReadFile(filepath.Join(cwd, "coca_reporter", "tbs.json"))
 	if err != nil {
 		return fail("no coca_reporter/tbs.json was written: " + err.Error())
 	}
 	var result []tbs.TestBadSmell
-	if err := json.Unmarshal(data, &result); err != nil {
+	if c.Sort {
+		// grouped by type: the same findings, each under the key of its type
+		var grouped map[string][]tbs.TestBadSmell
+		if err := json.Unmarshal(data, &grouped); err != nil {
+			return fail(fmt.Sprintf("tbs.json (-s) is not a map of type to findings: %v\n%s", err, tail(string(data), 600)))
+		}
+		var types []string
+		for typ := range grouped {
+			types = append(types, typ)
+		}
+		sort.Strings(types)
+		for _, typ := range types {
+			for _, r := range grouped[typ] {
+				if r.Type != typ {
+					return fail(fmt.Sprintf("tbs.json (-s): the group %q holds a finding of type %q", typ, r.Type))
+				}
+				result = append(result, r)
+			}
+		}
+	} else if err := json.Unmarshal(data, &result); err != nil {
 		return fail(fmt.Sprintf("tbs.json is not a list of findings: %v\n%s", err, tail(string(data), 600)))
 	}
 	var got []finding
 	for _, r := range result {
-		got = append(got, reported(dirArg, truths, r.Type, r.FileName, r.Line))
+		got = append(got, reported(nameRoot, truths, r.Type, r.FileName, r.Line))
 	}
-	if msg := judge(dirArg, truths, got); msg != "" {
+	if msg := judge(nameRoot, truths, got); msg != "" {
 		return fail(msg)
 	}
-	return classify(c, truths, dirArg, "cli")
+	// the printed summary shows the same report: where the output states the number of
+	// findings it must be that of tbs.json, and where a table is printed (the tool prints it
+	// for small reports) its rows must be the findings of tbs.json. Their absence is not judged.
+	if m := numsLine.FindStringSubmatch(res.Stdout); m != nil && m[1] != fmt.Sprint(len(result)) {
+		return fail(fmt.Sprintf("tbs.json holds %d findings, but the output says %q", len(result), m[0]))
+	}
+	if rows, header := tableRows(res.Stdout); header {
+		var fromJSON []string
+		for _, r := range result {
+			fromJSON = append(fromJSON, fmt.Sprintf("%s %s:%d", r.Type, r.FileName, r.Line))
+		}
+		sort.Strings(fromJSON)
+		if d := diff(fromJSON, rows); d != "" {
+			return fail("the printed table differs from tbs.json (type file:line):\n" + d)
+		}
+	}
+	return classify(c, truths, nameRoot, "cli")
 }
 
 // ---------------------------------------------------------------------------------------
@@ -1082,7 +1302,7 @@ func callsOf(atoms []Atom, helperCallCount map[string]int) (direct, total int) {
 				per = 3
 			}
 		case "assert":
-			if a.Name == "assertThat" || a.Name == "verify" {
+			if a.Name == "assertThat" || a.Name == "verify" || a.Name == "assertThrows" {
 				per = 2
 			}
 		}
